@@ -46,7 +46,17 @@ fn main() {
             let outs: Vec<String> = if serial {
                 lines.iter().map(|l| process_line(l)).collect()
             } else {
-                lines.par_iter().map(|l| process_line(l)).collect()
+                // cases that change the process's working directory run one after the other on this thread,
+                // after the parallel batch (inside the pool a worker waiting for its own inner tasks may pick up
+                // another such case and block on the lock it already holds)
+                let is_cwd = |l: &String| l.contains("\"cwd_relative\"");
+                let mut outs: Vec<Option<String>> = lines.par_iter().map(|l| if is_cwd(l) { None } else { Some(process_line(l)) }).collect();
+                for (i, l) in lines.iter().enumerate() {
+                    if outs[i].is_none() {
+                        outs[i] = Some(process_line(l));
+                    }
+                }
+                outs.into_iter().map(|o| o.unwrap()).collect()
             };
             let stdout = std::io::stdout();
             let mut w = std::io::BufWriter::new(stdout.lock());
